@@ -141,6 +141,14 @@ type Step struct {
 	Note      string      `json:"note"`
 	PktMax    int         `json:"pktmax"`
 	Cmd       string      `json:"cmd"`
+	// encoder sweeps (op Encode / EncodeDigest)
+	Hdr    int         `json:"hdr"`
+	OutLen int         `json:"outlen"`
+	Cum    []int       `json:"cum"`
+	D2     []DeltaNode `json:"d2"`
+	Dec    []DeltaNode `json:"dec"`
+	Dig2   []DigEnt    `json:"dig2"`
+	DigDec []DigEnt    `json:"digdec"`
 	PktLens   []int       `json:"pktlens"`
 }
 
@@ -246,6 +254,7 @@ type Options struct {
 	Streams   bool // open real TCP stream listeners (join/leave)
 	InitKnown bool
 	Endpoints []string // endpoint ids used for LookupEndpoint snapshots
+	MaxSlots  int      // datagrams in flight; a datagram that finds no free slot is lost (default 64)
 }
 
 type Cluster struct {
@@ -556,9 +565,31 @@ func (c *Cluster) Finish(s *Step, full bool) {
 	if s.PktLens == nil {
 		s.PktLens = []int{}
 	}
+	if s.Cum == nil {
+		s.Cum = []int{}
+	}
+	if s.D2 == nil {
+		s.D2 = []DeltaNode{}
+	}
+	if s.Dec == nil {
+		s.Dec = []DeltaNode{}
+	}
+	if s.Dig2 == nil {
+		s.Dig2 = []DigEnt{}
+	}
+	if s.DigDec == nil {
+		s.DigDec = []DigEnt{}
+	}
 }
 
 // ---- network ---------------------------------------------------------------
+
+func (c *Cluster) maxSlots() int {
+	if c.Opt.MaxSlots > 0 {
+		return c.Opt.MaxSlots
+	}
+	return 64
+}
 
 func (c *Cluster) lowestFree() int {
 	for i := 1; ; i++ {
@@ -611,6 +642,9 @@ func (c *Cluster) flushOutbox(s *Step, ans []DigEnt, sendEmpty bool, pktMax int)
 			}
 		}
 		m.Slot = c.lowestFree()
+		if m.Slot > c.maxSlots() {
+			continue // no free slot: the datagram is lost at once (as in the specification)
+		}
 		c.Slots[m.Slot] = m
 	}
 	c.outbox = nil
@@ -915,7 +949,7 @@ func (c *Cluster) Expire(o string, k int) *Step {
 	for _, id := range removed {
 		c.suspSet[o][id] = false
 	}
-	s := &Step{Op: "RemoveExpired", A: o}
+	s := &Step{Op: "RemoveExpired", A: o, Thr: k} // thr = number of views whose deadline has passed
 	c.Finish(s, false)
 	for _, e := range s.Evts {
 		s.Ord = append(s.Ord, e.N)
